@@ -1968,6 +1968,13 @@ def _gen_function(kv, sections, repo, res: UnitResult, variant) -> list:
             raise ExtractError("anchor lost: substitution source %r not found in fn %s" % (x, kv["fn"]))
         body = body.replace(x, y)
         log.setdefault("SUB", []).append(pair)
+    # optsub=: like sub=, but for constructs the current text does not (and should not) contain: applied only where the source
+    # occurs, so that a change which introduces the construct meets its shim (and the shim's precondition) instead of an unknown path
+    for pair in [p for p in kv.get("optsub", "").split(";;") if p]:
+        x, y = pair.split("=>")
+        if x in body:
+            body = body.replace(x, y)
+            log.setdefault("OPTSUB", []).append(pair)
 
     # contret=1: the extracted block is one arm of a loop body; a `continue;` in it (not inside a nested loop) ends the arm just as
     # falling off its end does, so it becomes `return;` and the arm's contract covers both ways out
